@@ -2,6 +2,7 @@ package props
 
 import (
 	"fmt"
+	"hash/fnv"
 	"math"
 	"reflect"
 	"strconv"
@@ -402,6 +403,34 @@ func checkC11Chained(c *Case, st *Stats) string {
 	}
 	if !sameOutcome(got1, err1, got2, err2) {
 		return fmt.Sprintf("the same path on the same document gives (%s, %v) and then (%s, %v)", JSONString(got1), err1, JSONString(got2), err2)
+	}
+	// the same values held differently: one container referenced from two places and one array that
+	// is a window of another array's storage (`head := all[:k]`). A subscript selects by position in
+	// the array it is applied to, wherever that array's elements live.
+	h := fnv.New64a()
+	h.Write([]byte(c.Path))
+	h.Write([]byte(c.Doc.JSON()))
+	seed := h.Sum64()
+	// (one of the two per case: applied together they could make a container its own descendant)
+	held, heldSpec := c.Document(), c.Document()
+	if seed&1 == 0 {
+		held, heldSpec = gen.ShareSubtrees(held, seed), gen.ShareSubtrees(heldSpec, seed)
+	} else {
+		held, heldSpec = gen.OverlapSlices(held, seed>>7), gen.OverlapSlices(heldSpec, seed>>7)
+	}
+	got3, err3 := f(held)
+	st.Eval(1)
+	res := spec.Eval(c.AST, heldSpec, gen.PureFuncs{})
+	if !res.Unspecified {
+		what := "document with a shared container or an array that is a window of another (" + JSONString(heldSpec) + ")"
+		switch {
+		case len(res.Nodes) == 0 && err3 == nil:
+			return fmt.Sprintf("%s: SPEC selects nothing but the library returned %s", what, JSONString(got3))
+		case len(res.Nodes) > 0 && err3 != nil:
+			return fmt.Sprintf("%s: SPEC selects %s but the library failed: %v", what, JSONString(res.Values()), err3)
+		case len(res.Nodes) > 0 && !reflect.DeepEqual(got3, res.Values()):
+			return fmt.Sprintf("%s: result differs from SPEC:\n   got  %s\n   want %s", what, JSONString(got3), JSONString(res.Values()))
+		}
 	}
 	return ""
 }
